@@ -211,10 +211,31 @@ def gen_cases(ctx, consts):
               min_step, ulps(min_step, -1), ulps(min_step, 1), min_step * 0.1, rng * 1e-3, rng * 10 ** r.uniform(-12, 0)]
         ts += [lam * 10 ** r.uniform(-12, 0) for _ in range(2)]
         ts = sorted(x for x in set(ts) if 0 < x <= rng)
-        C.append(("togeo", dict(m=m, rt=rt, emass=emass, e=e, lam=lam, range=rng, args=ts)))
+        C.append(("msc", dict(m=m, rt=rt, emass=emass, e=e, lam=lam, range=rng, args=ts)))
+    # extreme mean-free-path / range ratios (1e-15 .. 1e15) in every branch of MscStepToGeo, with the
+    # conversion back: the clamps (min(step, tstep), clamp(tstep, gstep, true)) are what guarantees
+    # geom <= true and geom <= back <= true there, so the oracle tests them with zero slack
+    bands = [(-15, -9), (-9, -3), (-3, 3), (3, 9), (9, 12), (12, 15), (12, 15)]
+    for i in range(len(bands) * (6 if not thorough else 40)):
+        lo, hi = bands[i % len(bands)]
+        m = gen_table(r, "xs", n=r.choice([2, 3, 5, 17]))
+        rt = gen_table(r, "range", n=r.choice([2, 3, 5, 17]))
+        emass = 0.5109989461
+        low_energy = (i // len(bands)) % 2 == 0
+        if low_energy:     # alpha = 1/range branch for every tstep >= dtrl * range
+            e = 10 ** r.uniform(-4, -0.4)
+            rng = r.choice([py_range(rt, e), 10 ** r.uniform(-8, 8)])
+        else:              # endpoint-energy branch (inverse range + msc mfp tables); tstep == range -> alpha = 1/range
+            e = 10 ** r.uniform(-0.2, 3)
+            rng = py_range(rt, e)
+        lam = rng * 10 ** r.uniform(lo, hi)
+        fr = [1.0, 0.999, 0.99, 0.9, 0.7, 0.5, 0.3, 0.1, dtrl * 1.5, dtrl, dtrl * 0.5, 1e-3] + [r.uniform(dtrl, 1) for _ in range(4)]
+        ts = [rng * f for f in fr] + [ulps(rng, -1), ulps(rng * dtrl, -1), ulps(rng * dtrl, 1), min_step, ulps(min_step, -1), min_step * 3]
+        ts = sorted(x for x in set(ts) if 0 < x <= rng)
+        C.append(("msc", dict(m=m, rt=rt, emass=emass, e=e, lam=lam, range=rng, args=ts)))
     for i in range(60 if not thorough else 600):
-        lam = 10 ** r.uniform(-6, 6)
         rng = 10 ** r.uniform(-6, 6)
+        lam = rng * 10 ** r.choice([r.uniform(-6, 6), r.uniform(-15, 15)])
         true = rng * r.choice([1.0, 1.0, r.random(), 10 ** r.uniform(-12, 0)])
         alpha = r.choice([small, 1 / rng, 1 / rng, r.uniform(-1, 1) / rng, 10 ** r.uniform(-8, 2) / true,
                           -10 ** r.uniform(-8, 0) / true])
@@ -237,8 +258,8 @@ def case_line(k, p):
         return "xsat %s %d %s" % (p["t"].cmd(), len(a), " ".join(hx(float(i)) for i in a))
     if k == "eloss":
         return "eloss %s %s %s %s %s %s" % (p["d"].cmd(), p["rt"].cmd(), hx(p["lll"]), hx(p["e"]), hx(p["range"]), args)
-    if k == "togeo":
-        return "togeo %s %s %s %s %s %s %s" % (p["m"].cmd(), p["rt"].cmd(), hx(p["emass"]), hx(p["e"]), hx(p["lam"]),
+    if k in ("togeo", "msc"):
+        return k + " %s %s %s %s %s %s %s" % (p["m"].cmd(), p["rt"].cmd(), hx(p["emass"]), hx(p["e"]), hx(p["lam"]),
                                                hx(p["range"]), args)
     return "fromgeo %s %s %s %s %s" % (hx(p["true"]), hx(p["alpha"]), hx(p["range"]), hx(p["lam"]), args)
 
@@ -253,8 +274,8 @@ def case_expr(k, p, consts):
     if k == "eloss":
         return "run_eloss %s %s %s %s %s %s" % (p["d"].coq(), p["rt"].coq(), hexf(p["lll"]), hexf(p["e"]),
                                                 hexf(p["range"]), fl(a))
-    if k == "togeo":
-        return "run_togeo %s %s %s %s %s %s %s %s %s %s" % (ms, dtrl, small, p["m"].coq(), p["rt"].coq(), hexf(p["emass"]),
+    if k in ("togeo", "msc"):
+        return "run_" + k + " %s %s %s %s %s %s %s %s %s %s" % (ms, dtrl, small, p["m"].coq(), p["rt"].coq(), hexf(p["emass"]),
                                                            hexf(p["e"]), hexf(p["lam"]), hexf(p["range"]), fl(a))
     return "run_fromgeo %s %s %s %s %s %s %s" % (ms, small, hexf(p["true"]), hexf(p["alpha"]), hexf(p["range"]),
                                                  hexf(p["lam"]), fl(a))
@@ -271,7 +292,13 @@ def between(x, a, b, slack):
 def oracle(k, p, out, consts):
     a = p["args"]
     min_step, dtrl, small = consts
-    flat = [x for v in out for x in (v if isinstance(v, tuple) else (v,))]
+    def _flat(v):
+        if isinstance(v, (tuple, list)):
+            for x in v:
+                yield from _flat(x)
+        else:
+            yield v
+    flat = list(_flat(out))
     if any(not math.isfinite(v) for v in flat):
         return "non-finite result", None
     if k == "xs":
@@ -342,12 +369,24 @@ def oracle(k, p, out, consts):
                 return "negative mean energy loss", s
             if v > e:
                 return "mean energy loss exceeds the particle energy", s
-            if s == rng and max(out) >= lll * e * (1 + 1e-9) and v != e and out[-1] != e:
-                return "loss over the full range is not the full energy", s
+            # exact: the code returns pre_step_energy itself when step == range in the range branch
+            if s == rng and p.get("dedx") is not None and s * p["dedx"] >= e * lll and v != e:
+                return "loss over the full range is not (exactly) the full energy", s
     elif k == "togeo":
         for t_, (g, al) in zip(a, out):
             if not (0 <= g <= t_):
                 return "geometric path outside [0, true path]", t_
+    elif k == "msc":
+        # zero slack: these are enforced by min()/clamp() in the code
+        for t_, (g, al, backs) in zip(a, out):
+            if not (g <= t_):
+                return "geometric path %r exceeds the true path %r (by %.3g ulp)" % (g, t_, (g - t_) / math.ulp(t_)), t_
+            if not (0 <= g):
+                return "negative geometric path", t_
+            gs = [g, math.nextafter(g, 0.0), g * 0.5, g * 1e-3]
+            for gq, b in zip(gs, backs):
+                if not (gq <= b <= t_):
+                    return "converted-back true path %r not in [geometric %r, original true %r]" % (b, gq, t_), t_
     elif k == "fromgeo":
         for g, v in zip(a, out):
             if not (g <= v <= p["true"]):
@@ -392,6 +431,15 @@ def agree(k, p, out, mv):
                 # knife edge of the branch switch: accept if either side's linear loss is within rounding of lll*E
                 if min(abs(x - lll * e), abs(y - lll * e)) <= 1e-9 * lll * e:
                     continue
+                return False
+        return True
+    if k == "msc":
+        for t_, (g, al, backs), (mg, mal, mbacks) in zip(a, out, mv):
+            if not close(g, mg, rtol=1e-9, atol=1e-13 * t_):
+                return False
+            if not close(al, mal, rtol=1e-6, atol=1e-9 / t_):
+                return False
+            if not all(close(x, y, rtol=1e-9, atol=1e-12 * t_) for x, y in zip(backs, mbacks)):
                 return False
         return True
     if k == "togeo":
@@ -647,6 +695,10 @@ def run(ctx):
         vals = [pf(t) for t in tok]
         if k == "togeo":
             vals = [(vals[i], vals[i + 1]) for i in range(0, len(vals), 2)]
+        elif k == "msc":
+            vals = [(vals[i], vals[i + 1], vals[i + 2:i + 6]) for i in range(0, len(vals), 6)]
+        elif k == "eloss":
+            p["dedx"] = pf(ol.split("|")[1].split()[0])
         ctx.count("kind:" + k)
         for a in p["args"]:
             ctx.case((k, case_line(k, p)[:300], a), nontrivial=True)
